@@ -10,13 +10,13 @@ import (
 
 // caseWriter shards Coq case terms over files of at most shard cases each.
 type caseWriter struct {
-	dir     string
-	imports string // Require lines
-	check   string // name of check_case function
+	dir      string
+	imports  string // Require lines
+	check    string // name of check_case function
 	preamble string // shared definitions, repeated in every shard
-	shard   int
-	cases   []string
-	names   []string
+	shard    int
+	cases    []string
+	names    []string
 }
 
 func (w *caseWriter) add(name, term string) {
@@ -57,17 +57,17 @@ func (w *caseWriter) flush() ([]string, error) {
 
 // summary is what the Go side tells the driver about a run.
 type summary struct {
-	Property    string                 `json:"property"`
-	Seed        int64                  `json:"seed"`
-	Cases       int                    `json:"cases"`
-	Files       []string               `json:"files"`
-	Features    map[string]int         `json:"features"`
-	Samples     []interface{}          `json:"samples"`
-	GoOracle    []oracleResult         `json:"go_oracle"`
-	CaseInputs  map[string]interface{} `json:"case_inputs"` // name -> replayable input
-	Nontrivial  int                    `json:"distinct_nontrivial"`
-	Rule        string                 `json:"rule"`
-	Extra       map[string]interface{} `json:"extra,omitempty"`
+	Property   string                 `json:"property"`
+	Seed       int64                  `json:"seed"`
+	Cases      int                    `json:"cases"`
+	Files      []string               `json:"files"`
+	Features   map[string]int         `json:"features"`
+	Samples    []interface{}          `json:"samples"`
+	GoOracle   []oracleResult         `json:"go_oracle"`
+	CaseInputs map[string]interface{} `json:"case_inputs"` // name -> replayable input
+	Nontrivial int                    `json:"distinct_nontrivial"`
+	Rule       string                 `json:"rule"`
+	Extra      map[string]interface{} `json:"extra,omitempty"`
 }
 
 type oracleResult struct {
